@@ -21,17 +21,28 @@ Clauses ==
        codeK == [k \in 1..NKr |-> DiffRow(raw[k], fder, g.n)]
        declK == [k \in 1..NKr |-> DeclRowK(E[k], V[k], th, kr, g, fder, sel)]
        ones == \A k \in 1..NKr : \A b \in 1..Len(V[k]) : V[k][b] = 1
+       insideL == ~(\A k \in 1..NKr : NoLevelInsideGroupK(E[k], th, kr, g, fder))
+       gx == ExtendedGrid(g, fder)
+       seaK == [k \in 1..NKr |-> AsSeq(Rec.seaK[k])]          \* the code's own fder = 0 result on the extended grid (numerators, 1/SELUNIT)
+       nonneg == \A k \in 1..NKr : \A b \in 1..Len(V[k]) : V[k][b] >= 0
    IN
    [ admissible |-> /\ Supported(fder, sel) /\ g.d > 0 /\ g.n >= 1 /\ SingleLevelOK(g, th)
-                    /\ \A k \in 1..NKr : NoTieK(E[k], th, kr, g, fder) /\ NoLevelInsideGroupK(E[k], th, kr, g, fder)
+                    /\ \A k \in 1..NKr : NoTieK(E[k], th, kr, g, fder)
+                    /\ Rec.inside = insideL
                     /\ (kr => \A k \in 1..NKr : KramersPaired(E[k], th)),
-     equals_transcription |-> outK = codeK,
-     equals_declarative |-> outK = declK,
+     (* exact values: only where no level lies inside a group (there the representative energy of a group is not demanded) *)
+     equals_transcription |-> insideL \/ outK = codeK,
+     equals_declarative |-> insideL \/ outK = declK,
      k_resolved_sum |-> outU = SumRows(outK, NKr),
-     surface_is_difference_of_sea |-> (~sel.on) =>
-          \A k \in 1..NKr : outK[k] = CentralDiff(RawRows(E, V, th, kr, ExtendedGrid(g, fder), 0, NoSel)[k], fder),
-     sea_monotone_for_nonnegative_values |-> (fder = 0 /\ \A k \in 1..NKr : \A b \in 1..Len(V[k]) : V[k][b] >= 0) =>
-          \A r \in 1..(g.n - 1) : outU[r] <= outU[r + 1] ]
+     (* relational: fder = n is the n-th central difference of the code's own sea on the extended grid *)
+     surface_is_difference_of_own_sea |-> (~sel.on) => \A k \in 1..NKr : outK[k] = CentralDiff(seaK[k], fder),
+     (* representation-free: whole groups, every band at most once *)
+     own_sea_within_bounds |-> (~sel.on) => \A k \in 1..NKr : \A r \in 1..gx.n :
+          /\ SeaBoundRowK(E[k], V[k], th, kr, NoSel, gx, FALSE)[r] <= seaK[k][r]
+          /\ seaK[k][r] <= SeaBoundRowK(E[k], V[k], th, kr, NoSel, gx, TRUE)[r],
+     own_sea_exact |-> (insideL \/ sel.on) \/ \A k \in 1..NKr : seaK[k] = RawRows(E, V, th, kr, gx, 0, NoSel)[k],
+     sea_monotone_for_nonnegative_values |-> (nonneg /\ ~sel.on) =>
+          \A k \in 1..NKr : \A r \in 1..(gx.n - 1) : seaK[k][r] <= seaK[k][r + 1] ]
 (* the clause table is evaluated once per record (bound variable) *)
 Report == \A C \in {Clauses} : \A n \in DOMAIN C : C[n] \/ PrintT(<<"BAD", i, n>>)
 RecInit == i \in 1..Len(Recs)
